@@ -22,7 +22,8 @@ pub fn run(args: &Args) {
       let n = rng.below(7);
       let text: String = (0..n).map(|_| TEXT_POOL[rng.below(TEXT_POOL.len())]).collect();
       let src = format!("const x = <div>{}</div>;\n", text);
-      match lint(&ent, &src, "tsx") {
+      // (.jsx: in .tsx `<div>é=>x</div>` is a generic arrow function, not an element)
+      match lint(&ent, &src, "jsx") {
         Outcome::Ok(ds) => {
           let fix = ds.first().and_then(|d| d.fixes.first()).and_then(|(_, ch)| ch.first().map(|c| c.2.clone()));
           out.count(if ds.is_empty() { "ent=clean" } else { "ent=reported" });
